@@ -14,7 +14,7 @@ Definition falloc_within (H : host) : Prop :=
     snd (ho_falloc H w size mode off len) = size.
 
 (* the O_APPEND state of every host fd is the O_APPEND bit of the stored flags *)
-Definition hdl_ok (h : hdl) : Prop := hd_append h = has (hd_flags h) O_APPEND.
+Definition hdl_ok (h : hdl) : Prop := hd_append h = true -> has (hd_flags h) O_APPEND = true.
 Definition slots_ok (s : state) : Prop := forall k h, slots s k = Some h -> hdl_ok h.
 
 (* the narrow class of requests through which the current code lets a size change (D10) *)
@@ -35,8 +35,8 @@ Lemma set_size_ok s f v : slots_ok s -> slots_ok (set_size s f v).
 Proof. intros Hs j h'. unfold set_size. cbn [slots]. apply Hs. Qed.
 Lemma open_effect_ok s f fl : slots_ok s -> slots_ok (open_effect s f fl).
 Proof. intros Hs. unfold open_effect. destruct (has fl O_TRUNC); [apply set_size_ok|]; exact Hs. Qed.
-Lemma new_hdl_ok f fl : hdl_ok (new_hdl f fl).
-Proof. reflexivity. Qed.
+Lemma new_hdl_ok wb f fl : hdl_ok (new_hdl wb f fl).
+Proof. unfold hdl_ok, new_hdl. cbn [hd_append hd_flags]. intros Hx. apply andb_true_iff in Hx. tauto. Qed.
 
 Lemma get_data_ok C s slot file h : slots_ok s -> get_data C s slot file = Some h -> hdl_ok h.
 Proof.
@@ -46,17 +46,19 @@ Proof.
 Qed.
 
 Lemma check_fd_flags_ok h fl : hdl_ok h -> hdl_ok (check_fd_flags h fl).
-Proof. intros Hh. unfold check_fd_flags. destruct (hd_flags h =? fl); [exact Hh|reflexivity]. Qed.
+Proof. intros Hh. unfold check_fd_flags. destruct (hd_flags h =? fl); [exact Hh|intros Hx; exact Hx]. Qed.
 
-Lemma check_fd_flags_append h fl : hdl_ok h -> hd_append (check_fd_flags h fl) = has fl O_APPEND.
+(* after check_fd_flags the fd appends only if the request's flag word carries O_APPEND *)
+Lemma check_fd_flags_append h fl : hdl_ok h -> has fl O_APPEND = false -> hd_append (check_fd_flags h fl) = false.
 Proof.
-  intros Hh. unfold check_fd_flags. destruct (hd_flags h =? fl) eqn:E; [|reflexivity].
-  rewrite Hh. f_equal. lia.
+  intros Hh Hna. unfold check_fd_flags. destruct (hd_flags h =? fl) eqn:E; [|exact Hna].
+  destruct (hd_append h) eqn:Ea; [|reflexivity]. specialize (Hh eq_refl).
+  assert (hd_flags h = fl) by lia. congruence.
 Qed.
 
 Lemma step_slots_ok H C s r : slots_ok s -> slots_ok (snd (step H C s r)).
 Proof.
-  intros Hs. destruct r as [slot file fl|slot file fl|slot file off len wfl|slot file mode off len|file ws ns|slot rfile]; cbn [step].
+  intros Hs. destruct r as [slot file fl|slot file fl|slot file rfl|slot file off len wfl|slot file mode off len|file ws ns|slot rfile]; cbn [step].
   - destruct (c_no_open C); cbn [snd]; [exact Hs|].
     destruct (fx_open (c_fx C) && c_seal C && has fl O_TRUNC); cbn [snd]; [exact Hs|].
     apply set_slot_ok; [apply open_effect_ok; exact Hs|apply new_hdl_ok].
@@ -126,7 +128,7 @@ Lemma step_sealed_sizes H C s r :
   forall f, sizes (snd (step H C s r)) f = sizes s f.
 Proof.
   intros Hseal Hf Hs Hk f. unfold covered in Hk.
-  destruct r as [slot file fl|slot file fl|slot file off len wfl|slot file mode off len|file ws ns|slot rfile]; cbn [step known] in *.
+  destruct r as [slot file fl|slot file fl|slot file rfl|slot file off len wfl|slot file mode off len|file ws ns|slot rfile]; cbn [step known] in *.
   - destruct (c_no_open C); cbn [snd]; [reflexivity|]. rewrite Hseal. unfold open_effect.
     destruct (has fl O_TRUNC); destruct (fx_open (c_fx C)); cbn in Hk |- *; try discriminate; reflexivity.
   - destruct (has fl O_EXCL); cbn [snd]; [reflexivity|]. rewrite Hseal. unfold open_effect.
@@ -142,7 +144,7 @@ Proof.
     destruct (hd_acc _ =? 0); [destruct (I64_MAX <? off); cbn [snd]; apply Hsz|].
     assert (Hna : has wfl O_APPEND = false).
     { destruct (has wfl O_APPEND); [|reflexivity]. destruct (fx_append (c_fx C)); cbn in Hk, Efx; discriminate. }
-    rewrite (check_fd_flags_append _ _ (get_data_ok _ _ _ _ _ Hs Eg)), Hna.
+    rewrite (check_fd_flags_append _ _ (get_data_ok _ _ _ _ _ Hs Eg) Hna).
     assert (Hc : seal_size_check true (sizes s file) off len 0 = 0) by lia.
     destruct (seal_write_ok _ _ _ Hc) as [Hle _].
     pose proof (pwrite_within H _ _ _ Hle) as Hp.
@@ -308,7 +310,7 @@ Theorem within_size_same H no_open fx s r :
   step H (mk_cfg true no_open fx) s r = step H (mk_cfg false no_open fx) s r.
 Proof.
   intros Hb Hw.
-  destruct r as [slot file fl|slot file fl|slot file off len wfl|slot file mode off len|file ws ns|slot rfile];
+  destruct r as [slot file fl|slot file fl|slot file rfl|slot file off len wfl|slot file mode off len|file ws ns|slot rfile];
     cbn [step c_seal c_no_open c_fx stays_within] in *; try reflexivity.
   - rewrite Hw, !andb_false_r. reflexivity.
   - rewrite Hw, !andb_false_r. reflexivity.
@@ -343,7 +345,7 @@ Theorem refused_no_effect H no_open fx s r :
   forall f, sizes (snd (step H (mk_cfg true no_open fx) s r)) f = sizes s f.
 Proof.
   intros Hw Hg.
-  destruct r as [slot file fl|slot file fl|slot file off len wfl|slot file mode off len|file ws ns|slot rfile];
+  destruct r as [slot file fl|slot file fl|slot file rfl|slot file off len wfl|slot file mode off len|file ws ns|slot rfile];
     cbn [would_change] in Hw; try contradiction; cbn [step c_seal c_no_open c_fx].
   - destruct Hg as [Hg|[]]. destruct (get_data _ s slot file) as [h0|]; [|contradiction].
     assert (Hc : seal_size_check true (sizes s file) off len 0 = EPERM \/ seal_size_check true (sizes s file) off len 0 = EINVAL).
